@@ -624,8 +624,9 @@ func (d *decider) tickedResult(tc tcase, r core.CaseResult) {
 	// 0. a call that starts with an already-done context must not enter the guest at all
 	if tc.Moment < 0 && causeKind(cause) != "close" {
 		c.Count("done_context_at_call_entry_"+eng+"_"+callForm, 1)
+		d.judged("done-ctx:"+eng, pt)
 		if t.Ticks > 0 {
-			d.violate("guest-entered-with-done-context:"+eng, group, pt,
+			d.violate("guest-entered-with-done-context:"+eng, "done-ctx:"+eng, pt,
 				fmt.Sprintf("%s on %s via %s: the context (%s) was already done when the call started, yet the guest ran (%d ticks)", t.Label, eng, callForm, cause, t.Ticks), wit())
 		}
 	}
